@@ -32,12 +32,16 @@ ASSUMPTIONS = [
 ]
 MIN_NONTRIVIAL_FRACTION = 0.2
 RULE += ' Added after the seeded rounds: Clock gaps from 0.25 s to 40 days, limits from 30 s to 25 h; 1/30 of the histories repeat one call 1001+ times (bound of the event log).'
+RULE += ' Phase-change / senescence handlers optionally call back into the lifecycle that notifies them (keep-alive heartbeat(), get_status(), get_statistics()): the triggering call must still return (lock shim reports re-acquisition).'
 EXHAUSTIVE_NOTE = {"quick": "all op sequences of length 1..3 over 16 ops x 4 configurations (4*(16+256+4096) = 17472 histories), complete",
                    "thorough": "all op sequences of length 1..4 over 16 ops x 4 configurations (279616 histories), complete"}
 
 _cfg = st.fixed_dictionaries({
     "max_ops": st.integers(1, 12), "err_thr": st.integers(1, 4), "renewal": st.booleans(),
     "lifetime_h": st.sampled_from([None, 1, 1, 24, 0.5]), "idle_min": st.sampled_from([None, 10, 10, 1500, 0.5]),
+    # what the phase-change / senescence handlers do: nothing, or call back into the lifecycle that is notifying them (keep-alive heartbeat,
+    # reading the status: ordinary user code) - the call that triggered the notification must still return
+    "handler": st.sampled_from([None, None, "heartbeat", "heartbeat", "status", "statistics"]),
 })
 _op = st.one_of(
     st.tuples(st.just("start")),
@@ -78,8 +82,8 @@ def strategy(tier):
 
 _ENUM_CFG = [
     {"max_ops": 3, "err_thr": 1, "renewal": True, "lifetime_h": None, "idle_min": None},
-    {"max_ops": 12, "err_thr": 2, "renewal": True, "lifetime_h": 1, "idle_min": 10},
-    {"max_ops": 2, "err_thr": 3, "renewal": False, "lifetime_h": None, "idle_min": 10},
+    {"max_ops": 12, "err_thr": 2, "renewal": True, "lifetime_h": 1, "idle_min": 10, "handler": "status"},
+    {"max_ops": 2, "err_thr": 3, "renewal": False, "lifetime_h": None, "idle_min": 10, "handler": "heartbeat"},
     {"max_ops": 20, "err_thr": 2, "renewal": True, "lifetime_h": 1, "idle_min": None},
 ]
 _ENUM_OPS = [["start"], ["tick", 1], ["tick", 0], ["tick", 3], ["error"], ["heartbeat"], ["check"], ["renew", None, True],
@@ -123,9 +127,24 @@ def _judge(case, out, clock, tel):
     cfg = case["cfg"]
     LP = tel.LifecyclePhase
     stream = []
+    holder = []
+    handler = cfg.get("handler")
+
+    def look_back():
+        if handler and holder:
+            # heartbeat() takes the lifecycle lock and only refreshes the activity timestamp (the outer call refreshes it anyway)
+            {"heartbeat": holder[0].heartbeat, "status": holder[0].get_status, "statistics": holder[0].get_statistics}[handler]()
+
+    def on_phase(a, b):
+        stream.append((a.value, b.value))
+        look_back()
+
     t = tel.Telomere(max_operations=cfg["max_ops"], max_lifetime_hours=cfg["lifetime_h"], idle_timeout_minutes=cfg["idle_min"],
                      error_threshold=cfg["err_thr"], allow_renewal=cfg["renewal"],
-                     on_phase_change=lambda a, b: stream.append((a.value, b.value)), silent=True)
+                     on_phase_change=on_phase, on_senescence=lambda reason: look_back(), silent=True)
+    holder.append(t)
+    if handler:
+        out.label("re-entrant-handler")
     mx = cfg["max_ops"]
     true_ticks = 0          # unit-or-larger ticks that reported True since the last renew/reset
     active_errors = 0       # errors recorded while ACTIVE since the last error reset
